@@ -10,8 +10,14 @@ import vlib
 
 PROOF_MODULES = []      # C43 files are not in coq/_CoqProject yet: compiled directly, in the order ORDER
 ORDER = ["C43/MpModel.v", "C43/MpSpec.v", "C43/MpLoop.v", "C43/MpDiv.v", "C43/MpGcd.v", "C43/MpGcdNorm.v", "C43/MpPowm.v",
-         "C43/MpRoot.v", "C43/MpFib.v", "C43/MpBin.v", "C43/MpPrime.v", "C43/MpJacobi.v", "C43/MpProofs.v"]
-OBLIGATIONS = []
+         "C43/MpRoot.v", "C43/MpFib.v", "C43/MpBin.v", "C43/MpPrime.v", "C43/MpJacobi.v"]
+OBLIGATIONS = ["C43/P_%s.v" % n for n in (
+    "fdiv_qr_spec", "fdiv_qr_floor", "cdiv_qr_spec", "cdiv_qr_ceiling", "tdiv_qr_spec", "divisible_spec", "scan1_spec",
+    "gcdext_bezout", "gcdext_spec", "invert_spec", "powm_spec", "powm_spec_neg", "root_spec", "root_errors", "rootrem_spec", "sqrt_spec",
+    "sqrtrem_spec", "perfect_square_spec", "fib_spec", "fib2_spec", "lucnum_spec", "lucnum2_spec", "fac_spec", "bin_spec", "binom_fact",
+    "probab_prime_spec", "nextprime_partial", "perfect_power_partial", "jacobi_total", "jacobi_spec_relative", "kronecker_spec_relative",
+    "jacobi_definition_small", "kronecker_definition_small", "nonvacuous")]
+REFUTATIONS = ["C43/P_refuted.v"]     # compiled and reported, not counted as obligations (DESIGN.md section 12)
 
 PRIMES_SMALL = [3, 5, 7, 11, 13, 17, 19, 23, 29, 31, 37, 41, 43, 47, 53, 59, 61, 67, 71, 73, 79, 83, 89, 97, 101, 103, 107, 109, 113,
                 127, 251, 257, 521, 1009, 4099, 7919, 65537, 99991]
